@@ -76,8 +76,8 @@ func text(n int) []byte {
 	return bytes.Repeat([]byte("the quick brown fox jumps over the lazy dog\n"), n/44+1)[:n]
 }
 
-func shapes(r *mc.Run) []shape {
-	s := []shape{
+func allShapes() []shape {
+	return []shape{
 		{"empty", []byte{}},
 		{"1byte", []byte("x")},
 		{"text-small", text(100)},
@@ -93,10 +93,41 @@ func shapes(r *mc.Run) []shape {
 		{"html-small", []byte("<html><body>hello</body></html>")},
 		{"binary-zeros-20k", make([]byte, 20*1024)},
 	}
+}
+
+func shapes(r *mc.Run) []shape {
+	s := allShapes()
 	if r.Quick() {
 		return s[:11]
 	}
 	return s
+}
+
+// boundaryCases: metadata of boundary length (the needle stores name and mime
+// lengths in one byte each) x {incompressible, compressible text, cipher on}, each
+// judged itself and then followed by an ordinary upload to the same fresh volume.
+func boundaryCases() []rtCase {
+	var metas []rtCase
+	for _, l := range []int{254, 255, 256, 257, 303} {
+		metas = append(metas, rtCase{Mime: "application/x-" + strings.Repeat("m", l-len("application/x-"))})
+	}
+	for _, l := range []int{254, 255, 256, 300} {
+		metas = append(metas, rtCase{Name: strings.Repeat("n", l-4) + ".bin"})
+	}
+	var out []rtCase
+	for _, m := range metas {
+		for _, v := range []struct {
+			shape  string
+			cipher bool
+		}{{"random-20k", false}, {"text-20k", false}, {"text-small", true}} {
+			c := m
+			c.Shape, c.Cipher = v.shape, v.cipher
+			out = append(out, c)
+			follow := rtCase{Shape: "text-small", Name: "a.txt", Mime: "text/plain", After: &c}
+			out = append(out, follow)
+		}
+	}
+	return out
 }
 
 func fileNames(r *mc.Run) []string {
@@ -123,6 +154,30 @@ type rtCase struct {
 	Mime   string `json:"mime"`
 	Cipher bool   `json:"cipher"`
 	PreGz  bool   `json:"input_is_gzipped"`
+	// After, when set, is uploaded first to the same (fresh) volume and not judged:
+	// the case itself is then an ordinary upload that must still read back.
+	After *rtCase `json:"after,omitempty"`
+}
+
+// metaClass names the boundary-length metadata family of a case ("" = ordinary).
+func metaClass(k rtCase) string {
+	c := ""
+	switch {
+	case len(k.Mime) >= 256:
+		c = "mime-len>=256"
+	case len(k.Mime) >= 254:
+		c = "mime-len-254..255"
+	case len(k.Name) >= 256:
+		c = "name-len>=256"
+	case len(k.Name) >= 254:
+		c = "name-len-254..255"
+	}
+	if k.After != nil {
+		if a := metaClass(*k.After); a != "" {
+			return "after-" + a
+		}
+	}
+	return c
 }
 
 type fetch struct {
@@ -156,7 +211,26 @@ func fetches(n int) []fetch {
 const cookie = 0x33c0ffee
 
 func runRT(r *mc.Run, c *cluster.Cluster, key uint64, k rtCase, sh shape) {
-	fid := cluster.Fid(1, key, cookie)
+	runRTv(r, c, 1, key, k, sh)
+}
+
+func shapeByName(name string) shape {
+	for _, sh := range allShapes() {
+		if sh.Name == name {
+			return sh
+		}
+	}
+	mc.Fatal("c33: unknown shape %q", name)
+	return shape{}
+}
+
+func runRTv(r *mc.Run, c *cluster.Cluster, vid uint32, key uint64, k rtCase, sh shape) {
+	if k.After != nil {
+		a := *k.After
+		ash := shapeByName(a.Shape)
+		operation.UploadData(c.Servers[0].HttpUrl(cluster.Fid(vid, key+1<<20, cookie)), a.Name, a.Cipher, ash.Data, false, a.Mime, nil, "")
+	}
+	fid := cluster.Fid(vid, key, cookie)
 	url := c.Servers[0].HttpUrl(fid)
 	data := sh.Data
 	want := sh.Data
@@ -191,9 +265,13 @@ func runRT(r *mc.Run, c *cluster.Cluster, key uint64, k rtCase, sh shape) {
 		case !bytes.Equal(got, exp):
 			outcome = "mismatch"
 		}
-		r.Case(fmt.Sprintf("rt|%s|%s|%s|%s", shapeClass(sh), decision, mode, outcome))
+		mcl := metaClass(k)
+		r.Case(fmt.Sprintf("rt|%s|%s|%s|%s|%s", shapeClass(sh), decision, mode, outcome, mcl))
 		if outcome != "ok" {
 			class := fmt.Sprintf("roundtrip-%s:%s:%s:%s", outcome, mode, decision, shapeClass(sh))
+			if mcl != "" {
+				class += ":" + mcl
+			}
 			r.Violate(class, fmt.Sprintf("upload of %s (%d bytes) as %q mime %q cipher=%v pregz=%v -> gzip=%d; fetch %s off=%d size=%d: err=%v got %d bytes (%q…) want %d bytes (%q…)",
 				sh.Name, len(sh.Data), k.Name, k.Mime, k.Cipher, k.PreGz, ur.Gzip, mode, f.off, f.size, ferr, len(got), head(got), len(exp), head(exp)),
 				w{"part": "roundtrip", "case": k, "full": f.full, "offset": f.off, "size": f.size}, nil)
@@ -226,16 +304,16 @@ func enumRT(r *mc.Run, f func(idx int, k rtCase, sh shape)) {
 		for _, n := range fileNames(r) {
 			for _, m := range mimes(r) {
 				for _, ci := range []bool{false, true} {
-					f(idx, rtCase{sh.Name, n, m, ci, false}, sh)
+					f(idx, rtCase{sh.Name, n, m, ci, false, nil}, sh)
 					idx++
 				}
 			}
 		}
 		// the "input is already gzipped" entry point, with genuinely gzipped input
 		for _, ci := range []bool{false, true} {
-			f(idx, rtCase{sh.Name, "a.txt", "text/plain", ci, true}, sh)
+			f(idx, rtCase{sh.Name, "a.txt", "text/plain", ci, true, nil}, sh)
 			idx++
-			f(idx, rtCase{sh.Name, "", "", ci, true}, sh)
+			f(idx, rtCase{sh.Name, "", "", ci, true, nil}, sh)
 			idx++
 		}
 	}
@@ -385,13 +463,8 @@ func run(r *mc.Run) {
 			cl := cluster.MustNew(cluster.Options{})
 			defer cl.Close()
 			cl.MustAddVolume(1, "", "000", "")
-			for _, sh := range shapes(r) {
-				if sh.Name == c.Case.Shape {
-					runRT(r, cl, 1, c.Case, sh)
-					return
-				}
-			}
-			mc.Fatal("replay: unknown shape %q", c.Case.Shape)
+			runRT(r, cl, 1, c.Case, shapeByName(c.Case.Shape))
+			return
 		}
 		in, err := hex.DecodeString(c.Hex)
 		if err != nil {
@@ -417,6 +490,24 @@ func run(r *mc.Run) {
 			}
 		})
 	})
+
+	// part 1b: boundary-length metadata, every case on its own fresh volume
+	bc := boundaryCases()
+	r.Parallel("boundary", 6, func(shard, n int) {
+		cl := cluster.MustNew(cluster.Options{})
+		defer cl.Close()
+		for i, k := range bc {
+			if i%n != shard {
+				continue
+			}
+			vid := uint32(i + 1) // fresh volume per case; a follow-up case re-uploads its predecessor first
+			cl.MustAddVolume(vid, "", "000", "")
+			if r.Begin(k) {
+				runRTv(r, cl, vid, 1, k, shapeByName(k.Shape))
+			}
+		}
+	})
+	r.Set("boundary_cases", len(bc))
 
 	// part 2a: without recover, worker-isolated
 	strs := streams()
